@@ -97,6 +97,8 @@ def run(ctx, pid):
         "mc": lambda: ctx.tlc_must_hold(SPEC, "MC_Dispatch.cfg" if quick else "MC_Dispatch_t.cfg", module="Dispatch", timeout=900, workers=2),
         "cl": lambda: ctx.tlc_must_hold(SPEC, "MC_Closed.cfg" if quick else "MC_Closed_t.cfg", module="Dispatch", timeout=1500, workers=2),
     }
+    if not quick:   # closed forms with up to 4 distinct forwarded keys (permutations of 4)
+        jobs["clk"] = lambda: ctx.tlc_must_hold(SPEC, "MC_Closed_k.cfg", module="Dispatch", timeout=1500, workers=2)
     # quick: one run with every defect on; thorough: one run per defect branch
     demos = ["All"] if quick else DEFECTS
     for d in demos:
